@@ -604,6 +604,7 @@ PROBES = [
     ("compound-member-assign", "var o = {x: 5}; o.x += 3; o['x'] *= 2; o.x", 16),
     ("new-member-callee", "var ns = {K: function (a) { this.a = a; }}; new ns.K(3).a", 3),
     ("integer-key-order", "var o = {b: 1}; o[1] = 2; Object.keys(o).join()", "1,b"),
+    ('builtin-arrays-have-no-prototype', "[[1].slice() instanceof Array, JSON.parse('[1]') instanceof Array, Object.getPrototypeOf('a,b'.split(',')) === Array.prototype].join()", 'true,true,true'),
     ("delete-recreate-order", "var o = {b: 2, c: 3}; delete o.b; o.b = 4; Object.keys(o).join()", "c,b"),
     ("delete-recreate-order-accessor", "var o = {get a() { return 1; }, b: 2, c: 3}; delete o.b; o.b = 4; var ks = []; for (var k in o) ks.push(k); Object.keys(o).join() + '|' + ks.join() + '|' + JSON.stringify(Object.entries(o))",
      'a,c,b|a,c,b|[["a",1],["c",3],["b",4]]'),
